@@ -99,6 +99,46 @@ def meta_canon(m):
             'entries': {k: jcanon(v) for k, v in m.items() if k != 'warnings'}}
 
 
+def value_state(v):
+    import astropy.units as u
+    if isinstance(v, u.Quantity):
+        return ('q', str(v.unit), np.asarray(v.value).tobytes())
+    if isinstance(v, np.ndarray):
+        return ('a', v.dtype.str, v.shape, v.tobytes())
+    if isinstance(v, (bool, int, float, complex, str, type(None))):
+        return ('v', repr(v))
+    if isinstance(v, tuple) and all(isinstance(x, (bool, int, float, str, type(None))) for x in v):
+        return ('v', repr(v))
+    return ('id', id(v))
+
+
+def attr_state(ob):
+    """everything an operation could write on a spectrum object without it being visible in the samples at the
+    probe wavelengths: its instance attributes (names, identities of the objects they refer to, values of plain
+    numbers / arrays) and, for every model instance of `_model`, its identity, parameter values and plain
+    attributes (fill_value, ...).  Metadata contents are compared separately."""
+    st = {'attrs': tuple(sorted((k, value_state(v)) for k, v in vars(ob).items()))}
+    leaves = []
+    for l in model_leaves(ob._model):
+        plain = tuple(sorted((k, value_state(v)) for k, v in vars(l).items()
+                             if isinstance(v, (bool, int, float, str, type(None))) and not k.startswith('__')))
+        leaves.append((id(l), np.asarray(l.parameters, dtype=float).tobytes(), repr(getattr(l, 'fill_value', None)), plain))
+    st['leaves'] = tuple(leaves)
+    return st
+
+
+def state_diff(a, b):
+    """names of what differs between two attribute states"""
+    out = []
+    da, db = dict(a['attrs']), dict(b['attrs'])
+    for k in sorted(set(da) | set(db)):
+        if da.get(k) != db.get(k):
+            out.append(k if k in da and k in db else ('+' + k if k in db else '-' + k))
+    if a['leaves'] != b['leaves']:
+        out.append('<model instances / parameters>')
+    return out
+
+
 def model_leaves(m):
     from astropy.modeling import CompoundModel
     if isinstance(m, CompoundModel):
@@ -131,7 +171,8 @@ class World:
         self.dict_snap = [dict_canon(d) for d in self.dicts]
         self.objs, self.kinds, self.bad, self.dead = [], [], [], set()
         self.probe = np.array([O.fl(x) for x in case['probe']])
-        self.fp, self.meta_snap = [], []
+        self.fp, self.meta_snap, self.state = [], [], []
+        self.last_operand = None
         self.tmp = tempfile.mkdtemp(prefix='c19_', dir=os.environ.get('TMPDIR', '/tmp'))
         self.files = []
         self.reg0 = registry_state()
@@ -150,6 +191,7 @@ class World:
         self.kinds.append(kind)
         self.bad.append(bad)
         self.fp.append(None)
+        self.state.append(None)
         self.meta_snap.append(None)
         return len(self.objs) - 1
 
@@ -175,6 +217,10 @@ class World:
         return ('ok', v.tobytes(), extra), vals
 
     def sel(self, n, pred=None):
+        if n == 'last':
+            # the operand the latest deriving call (operator, normalize, Observation, taper) was applied to
+            i = self.last_operand
+            return i if i is not None and i not in self.dead and (pred is None or pred(i)) else None
         c = [i for i in range(len(self.objs)) if i not in self.dead and (pred is None or pred(i))]
         return c[n % len(c)] if c else None
 
@@ -218,6 +264,17 @@ class World:
         except Exception as e:  # noqa
             return {'err': canon_err(exc_name(e)), 'cls': type(e).__name__, 'msg': str(e)[:120]}
 
+    def z_kwargs(self, st, kind, kw, conc):
+        """the constructor keywords z=, z_type= of a SourceSpectrum"""
+        if kind == 'source' and st.get('z') is not None:
+            kw['z'] = O.fl(st['z'])
+            conc['z'] = st['z']
+            if st.get('ztype'):
+                kw['z_type'] = st['ztype']
+                conc['ztype'] = st['ztype']
+            return True
+        return False
+
     def do_new_empirical(self, st):
         from synphot import SourceSpectrum, SpectralElement, ReddeningLaw
         from synphot.models import Empirical1D
@@ -233,6 +290,7 @@ class World:
         cls = {'source': SourceSpectrum, 'bandpass': SpectralElement, 'reddening': ReddeningLaw}[kind]
         kw = dict(points=self.arrs[xi], lookup_table=self.arrs[yi], keep_neg=st['keep_neg'])
         conc = {'do': 'new_empirical', 'kind': kind, 'x': xi, 'y': yi, 'keep_neg': st['keep_neg'], 'meta': None}
+        zk = self.z_kwargs(st, kind, kw, conc)
         if st.get('fill0'):
             # no extrapolation: force_extrapolation() (directly, via normalize or Observation) is then observable
             kw['fill_value'] = 0
@@ -245,6 +303,9 @@ class World:
             import astropy.units as u
             if kind == 'source':
                 w = self.arrs[xi] if isinstance(self.arrs[xi], u.Quantity) else np.asarray(self.arrs[xi]) * u.AA
+                if st.get('z') is not None:
+                    # `_process_flux_param` converts at the observed wavelengths `_redshift_model(wave)`
+                    w = w.to(u.AA) * (1 + O.fl(st['z']))
                 conc['yconv'] = qs(units.convert_flux(w, self.arrs[yi], units.PHOTLAM).value.tolist())
             else:
                 conc['yconv'] = qs(self.arrs[yi].to_value(u.dimensionless_unscaled).tolist())
@@ -261,19 +322,27 @@ class World:
     def do_new_analytic(self, st):
         d = {'prim': st['kind'], 'leaf': copy.deepcopy(st['leaf'])}
         O.fill_ss(d, with_ss=False)
+        conc = {'do': 'new_analytic', 'kind': st['kind'], 'leaf': d['leaf']}
+        if self.z_kwargs(st, st['kind'], {}, conc):
+            d['z'] = st['z']
+            if st.get('ztype'):
+                d['ztype'] = st['ztype']
         out = self.guarded(lambda: O.build_prim(d))
         if 'ok' in out:
             out = {'ok': {'obj': self.add_obj(out['ok'], st['kind'], False)}}
-        return {'do': 'new_analytic', 'kind': st['kind'], 'leaf': d['leaf']}, out, {}
+        return conc, out, {}
 
     def do_new_blackbody(self, st):
         from synphot import SourceSpectrum
         from synphot.models import BlackBody1D
         t = O.fl(st['temp'])
-        out = self.guarded(lambda: SourceSpectrum(BlackBody1D, temperature=t))
+        kw = {}
+        conc = {'do': 'new_blackbody', 'temp': st['temp'], 'expr': jcanon('bb({0})'.format(float(t)))}
+        self.z_kwargs(st, 'source', kw, conc)
+        out = self.guarded(lambda: SourceSpectrum(BlackBody1D, temperature=t, **kw))
         if 'ok' in out:
             out = {'ok': {'obj': self.add_obj(out['ok'], 'source', t < 0)}}
-        return {'do': 'new_blackbody', 'temp': st['temp'], 'expr': jcanon('bb({0})'.format(float(t)))}, out, {}
+        return conc, out, {}
 
     def do_sample(self, st):
         o = self.sel(st['o'])
@@ -315,6 +384,7 @@ class World:
             bj = {'bad': dict(BAD_OPERANDS)[b['bad']]}
         left = self.objs[a]
         op = st['op']
+        self.last_operand = a if self.kinds[a] == 'source' or info['b'] is None or self.kinds[info['b']] != 'source' else info['b']
         out = self.guarded(lambda: {'add': lambda: left + other, 'sub': lambda: left - other,
                                     'mul': lambda: left * other, 'div': lambda: left / other}[op]())
         if 'ok' in out:
@@ -328,6 +398,7 @@ class World:
         if a is None:
             return None, None, None
         v = O.fl(st['v'])
+        self.last_operand = a
         out = self.guarded(lambda: v * self.objs[a])
         if 'ok' in out:
             res = out['ok']
@@ -350,6 +421,7 @@ class World:
         if o is None or band is None:
             return None, None, None
         sp, bp = self.objs[o], self.objs[band]
+        self.last_operand = o
         stat = self.overlap(bp, sp, self.bad[o]) if self.kinds[band] == 'bandpass' else 'full'
         if stat is None:
             return None, None, None
@@ -397,6 +469,7 @@ class World:
         if o is None:
             return None, None, None
         conc = {'do': 'taper', 'o': o}
+        self.last_operand = o
         td = self.taper_data(o)
         if td is None:
             return None, None, None
@@ -417,6 +490,7 @@ class World:
         if src is None or band is None:
             return None, None, None
         sp, bp = self.objs[src], self.objs[band]
+        self.last_operand = src
         ok_kinds = self.kinds[src] == 'source' and self.kinds[band] == 'bandpass'
         stat = self.overlap(bp, sp, self.bad[src]) if ok_kinds else 'full'
         if stat is None:
@@ -467,7 +541,12 @@ class World:
         return conc, out, info
 
     def do_query(self, st):
-        o = self.sel(st['o'], (lambda i: self.kinds[i] == 'bandpass') if st['m'] in BAND_QUERIES else None)
+        pred = None
+        if st['m'] in BAND_QUERIES:
+            pred = lambda i: self.kinds[i] == 'bandpass'
+        elif st['m'] in LAW_QUERIES:
+            pred = lambda i: self.kinds[i] == 'reddening'
+        o = self.sel(st['o'], pred)
         if o is None:
             return None, None, None
         arr, a = self.wave_arg(st)
@@ -476,6 +555,10 @@ class World:
         def call():
             if st['m'] == 'equivwidth':
                 return ob.equivwidth(wavelengths=arr)
+            if st['m'] == 'extinction_curve':
+                # a query whose result is a new, independent object (fresh arrays): sample the law, 10^(-0.4 R E)
+                c = ob.extinction_curve(O.fl(st.get('ebv', '1/4')), wavelengths=arr)
+                return np.concatenate([np.asarray(c.model.points[0], dtype=float), np.asarray(c.model.lookup_table, dtype=float)])
             return getattr(ob, st['m'])(wavelengths=arr)
 
         def f():
@@ -483,7 +566,7 @@ class World:
             return np.asarray(getattr(r1, 'value', r1)).tobytes() == np.asarray(getattr(r2, 'value', r2)).tobytes()
         out = self.guarded(f)
         info = {'twice': out.get('ok')}
-        conc = {'do': 'query', 'o': o, 'w': a, 'num_err': out.get('err')}
+        conc = {'do': 'query', 'o': o, 'w': a, 'num_err': out.get('err'), 'm': st['m']}
         if 'ok' in out:
             out = {'ok': None}
         return conc, out, info
@@ -703,7 +786,13 @@ class World:
                     if i not in allow_m:
                         self.fail('%s:metadata_of_other_object_changed' % d,
                                   'metadata of object #%d changed by %s of another object' % (i, d), k)
-            self.fp[i], self.meta_snap[i] = fp, mc
+            sta = None if i in self.dead else attr_state(self.objs[i])
+            if i < n_before and sta != self.state[i] and i not in allow_s and i not in allow_m:
+                names = state_diff(self.state[i], sta)
+                self.fail('%s:hidden_state_written:%s' % (d, type(self.objs[i]).__name__),
+                          'attributes %s of object #%d (%s) were written by %s, which is not a documented mutator of it'
+                          % (names, i, self.kinds[i], conc.get('m', d)), k)
+            self.fp[i], self.meta_snap[i], self.state[i] = fp, mc, sta
         if info.get('twice') is False:
             self.fail('%s:evaluated_twice_differs' % d, 'the same call twice gave different values', k)
         return rec
@@ -774,6 +863,7 @@ class World:
 
 BAND_QUERIES = ('tpeak', 'wpeak', 'equivwidth', 'rectwidth', 'efficiency', 'rmswidth', 'photbw')
 ANY_QUERIES = ('avgwave', 'pivot', 'barlam')
+LAW_QUERIES = ('extinction_curve',)
 
 
 def impl_call(case):
@@ -968,6 +1058,18 @@ def S(rng):
     return rng.randint(0, 10 ** 6)
 
 
+def zinit(rng, st):
+    """constructor keywords z=, z_type= on 45 % of the sources (non-zero z; both redshift behaviours)"""
+    if st.get('kind', 'source') == 'source' and rng.random() < 0.45:
+        st['z'] = q(rng.choice([z for z in ZS if z != 0]))
+        r = rng.random()
+        if r < 0.55:
+            st['ztype'] = 'conserve_flux'
+        elif r < 0.75:
+            st['ztype'] = 'wavelength_only'
+    return st
+
+
 def opt_w(rng, p=0.5):
     return S(rng) if rng.random() < p else None
 
@@ -978,19 +1080,19 @@ def gen_step(rng, k):
         # most histories start with a source and a bandpass, so that normalize / Observation have operands
         kind = 'source' if k == 0 else 'bandpass'
         if rng.random() < 0.3:
-            return {'do': 'new_analytic', 'kind': kind, 'leaf': gen_leaf(rng, kind)}
-        return {'do': 'new_empirical', 'kind': kind, 'x': S(rng), 'y': S(rng), 'keep_neg': rng.random() < 0.35,
-                'meta': S(rng) if rng.random() < 0.5 else None, 'fill0': rng.random() < 0.4}
+            return zinit(rng, {'do': 'new_analytic', 'kind': kind, 'leaf': gen_leaf(rng, kind)})
+        return zinit(rng, {'do': 'new_empirical', 'kind': kind, 'x': S(rng), 'y': S(rng), 'keep_neg': rng.random() < 0.35,
+                           'meta': S(rng) if rng.random() < 0.5 else None, 'fill0': rng.random() < 0.4})
     if r < 0.10:
-        return {'do': 'new_empirical', 'kind': rng.choice(['source', 'source', 'bandpass', 'bandpass', 'reddening']),
-                'x': S(rng), 'y': S(rng), 'keep_neg': rng.random() < 0.35, 'meta': S(rng) if rng.random() < 0.5 else None,
-                'fill0': rng.random() < 0.4}
+        return zinit(rng, {'do': 'new_empirical', 'kind': rng.choice(['source', 'source', 'bandpass', 'bandpass', 'reddening']),
+                           'x': S(rng), 'y': S(rng), 'keep_neg': rng.random() < 0.35,
+                           'meta': S(rng) if rng.random() < 0.5 else None, 'fill0': rng.random() < 0.4})
     if r < 0.19:
         kind = rng.choice(['source', 'bandpass', 'bandpass'])
-        return {'do': 'new_analytic', 'kind': kind, 'leaf': gen_leaf(rng, kind)}
+        return zinit(rng, {'do': 'new_analytic', 'kind': kind, 'leaf': gen_leaf(rng, kind)})
     if r < 0.23:
         t = rng.choice([F(5000), F(12000), F(300), F(-5), F(-300)]) if rng.random() < 0.6 else F(rng.choice([3000, 6000, 9000]))
-        return {'do': 'new_blackbody', 'temp': q(t)}
+        return zinit(rng, {'do': 'new_blackbody', 'temp': q(t)})
     if r < 0.32:
         return {'do': 'sample', 'o': S(rng), 'w': S(rng)}
     if r < 0.43:
@@ -1016,7 +1118,8 @@ def gen_step(rng, k):
     if r < 0.74:
         return {'do': 'integrate', 'o': S(rng), 'w': opt_w(rng), 'itype': rng.choice(['default', 'trapezoid', 'trapezoid', 'analytical', 'simpson'])}
     if r < 0.80:
-        return {'do': 'query', 'o': S(rng), 'w': opt_w(rng), 'm': rng.choice(ANY_QUERIES + ANY_QUERIES + BAND_QUERIES)}
+        return {'do': 'query', 'o': S(rng), 'w': opt_w(rng), 'm': rng.choice(ANY_QUERIES + ANY_QUERIES + BAND_QUERIES + LAW_QUERIES + LAW_QUERIES),
+                'ebv': q(rng.choice([F(1, 4), F(1, 2), F(-1, 4), F(0)]))}
     if r < 0.86:
         return {'do': 'to_fits', 'o': S(rng), 'w': opt_w(rng, 0.3), 'ext': S(rng) if rng.random() < 0.7 else None,
                 'reuse': S(rng) if rng.random() < 0.3 else None, 'overwrite': rng.random() < 0.4}
@@ -1050,7 +1153,22 @@ def follow_ups(rng, st):
     if st['do'] == 'new_empirical' and st['keep_neg'] and rng.random() < 0.4:
         # a second object on the same caller-owned arrays, this time with negative values removed
         out.append(dict(st, keep_neg=False, meta=None))
-    if st['do'] in ('arith', 'normalize', 'observation', 'rmul') and rng.random() < 0.5:
+    if st['do'] in ('arith', 'rmul', 'normalize', 'observation', 'taper') and rng.random() < 0.6:
+        # attribute assignments on the OPERAND after something has been derived from it: the derived objects
+        # (and everything else alive) must sample as before
+        for _ in range(rng.choice([1, 1, 2])):
+            r = rng.random()
+            if r < 0.45:
+                out.append({'do': 'set_z', 'o': 'last', 'z': q(rng.choice(ZS))})
+            elif r < 0.7:
+                out.append({'do': 'set_ztype', 'o': 'last', 't': rng.choice(['conserve_flux', 'conserve_flux', 'wavelength_only'])})
+            elif r < 0.8:
+                out.append({'do': 'set_meta', 'o': 'last', 'k': rng.choice(['note', 'expr', 'tag']), 'v': jcanon('op%d' % rng.randint(0, 9))})
+            elif r < 0.9:
+                out.append({'do': 'set_warnings', 'o': 'last', 'w': [['operand', jcanon('w%d' % rng.randint(0, 9))]]})
+            else:
+                out.append({'do': 'force_extrap', 'o': 'last'})
+    if st['do'] in ('arith', 'normalize', 'observation', 'rmul') and rng.random() < 0.35:
         # the newest object is addressed by selector -1 (n % len == len - 1)
         out.append({'do': 'set_warnings', 'o': -1, 'w': [['edited', jcanon('yes')]]})
         if rng.random() < 0.5:
